@@ -281,4 +281,22 @@ theorem vert_u8_avx2_chunk32_eq_portable (p : Nat) (hp : p < 32) (rows : List (L
 theorem vert_u8_avx2_source_as_modelled : Fir.Gen.vert_u8_avx2_skeleton =
     "_mm_set1_epi32(1 << (PRECISION as u8 - 1)) ; _mm256_set1_epi32(1 << (PRECISION as u8 - 1)) ; chunks_exact_mut(32) ; chunks_exact(2) ; remainder() ; iter_2_rows(y_start, max_rows) ; simd_utils::mm256_load_and_clone_i16x2(two_coeffs) ; simd_utils::loadu_si256(components1, src_x) ; simd_utils::loadu_si256(components2, src_x) ; _mm256_unpacklo_epi8(source1, source2) ; _mm256_unpacklo_epi8(source, _mm256_setzero_si256()) ; _mm256_add_epi32(sss0, _mm256_madd_epi16(pix, mmk)) ; _mm256_unpackhi_epi8(source, _mm256_setzero_si256()) ; _mm256_add_epi32(sss1, _mm256_madd_epi16(pix, mmk)) ; _mm256_unpackhi_epi8(source1, source2) ; _mm256_unpacklo_epi8(source, _mm256_setzero_si256()) ; _mm256_add_epi32(sss2, _mm256_madd_epi16(pix, mmk)) ; _mm256_unpackhi_epi8(source, _mm256_setzero_si256()) ; _mm256_add_epi32(sss3, _mm256_madd_epi16(pix, mmk)) ; first() ; iter_rows(y_last) ; _mm256_set1_epi32(k as i32) ; simd_utils::loadu_si256(components, src_x) ; _mm256_setzero_si256() ; _mm256_unpacklo_epi8(source1, source2) ; _mm256_unpacklo_epi8(source, _mm256_setzero_si256()) ; _mm256_add_epi32(sss0, _mm256_madd_epi16(pix, mmk)) ; _mm256_unpackhi_epi8(source, _mm256_setzero_si256()) ; _mm256_add_epi32(sss1, _mm256_madd_epi16(pix, mmk)) ; _mm256_unpackhi_epi8(source1, _mm256_setzero_si256()) ; _mm256_unpacklo_epi8(source, _mm256_setzero_si256()) ; _mm256_add_epi32(sss2, _mm256_madd_epi16(pix, mmk)) ; _mm256_unpackhi_epi8(source, _mm256_setzero_si256()) ; _mm256_add_epi32(sss3, _mm256_madd_epi16(pix, mmk)) ; _mm256_srai_epi32::<PRECISION>(sss0) ; _mm256_srai_epi32::<PRECISION>(sss1) ; _mm256_srai_epi32::<PRECISION>(sss2) ; _mm256_srai_epi32::<PRECISION>(sss3) ; _mm256_packs_epi32(sss0, sss1) ; _mm256_packs_epi32(sss2, sss3) ; _mm256_packus_epi16(sss0, sss2) ; _mm256_storeu_si256(dst_ptr, sss0) ; into_remainder() ; chunks_exact_mut(8) ; chunks_exact(2) ; remainder() ; iter_2_rows(y_start, max_rows) ; simd_utils::mm_load_and_clone_i16x2(two_coeffs) ; simd_utils::loadl_epi64(components1, src_x) ; simd_utils::loadl_epi64(components2, src_x) ; _mm_unpacklo_epi8(source1, source2) ; _mm_unpacklo_epi8(source, _mm_setzero_si128()) ; _mm_add_epi32(sss0, _mm_madd_epi16(pix, mmk)) ; _mm_unpackhi_epi8(source, _mm_setzero_si128()) ; _mm_add_epi32(sss1, _mm_madd_epi16(pix, mmk)) ; first() ; iter_rows(y_last) ; _mm_set1_epi32(k as i32) ; simd_utils::loadl_epi64(components, src_x) ; _mm_setzero_si128() ; _mm_unpacklo_epi8(source1, source2) ; _mm_unpacklo_epi8(source, _mm_setzero_si128()) ; _mm_add_epi32(sss0, _mm_madd_epi16(pix, mmk)) ; _mm_unpackhi_epi8(source, _mm_setzero_si128()) ; _mm_add_epi32(sss1, _mm_madd_epi16(pix, mmk)) ; _mm_srai_epi32::<PRECISION>(sss0) ; _mm_srai_epi32::<PRECISION>(sss1) ; _mm_packs_epi32(sss0, sss1) ; _mm_packus_epi16(sss0, sss0) ; _mm_storel_epi64(dst_ptr, sss0) ; into_remainder() ; chunks_exact_mut(4) ; chunks_exact(2) ; remainder() ; iter_2_rows(y_start, max_rows) ; simd_utils::mm_load_and_clone_i16x2(two_coeffs) ; simd_utils::mm_cvtsi32_si128_from_u8(components1, src_x) ; simd_utils::mm_cvtsi32_si128_from_u8(components2, src_x) ; _mm_unpacklo_epi8(row1, row2) ; _mm_unpacklo_epi8(pixels_u8, _mm_setzero_si128()) ; _mm_add_epi32(sss, _mm_madd_epi16(pixels_i16, two_coeffs)) ; first() ; iter_rows(y_last) ; simd_utils::mm_cvtepu8_epi32_from_u8(components, src_x) ; _mm_set1_epi32(k as i32) ; _mm_add_epi32(sss, _mm_madd_epi16(pix, mmk)) ; _mm_srai_epi32::<PRECISION>(sss) ; _mm_packs_epi32(sss, sss) ; _mm_cvtsi128_si32(_mm_packus_epi16(sss, sss)) ; into_remainder() ; native::convolution_by_u8(src_view, normalizer, 1 << (PRECISION as u8 - 1), dst_u8, src_x, y_start, coeffs,)" := by rfl
 
+/-! ### the AVX2 four-row kernel of the U8x4 horizontal pass
+
+    `horiz_convolution_four_rows` of src/convolution/u8x4/avx2.rs keeps two rows in one 256-bit register, one per
+    128-bit half (`_mm256_inserti128_si256::<1>`), and applies to both halves the instructions the SSE4.1 kernel applies
+    to one row: `_mm256_shuffle_epi8` shuffles each half with the matching half of its mask, `madd` / `add` / `srai` /
+    `packs` / `packus` act per half, `_mm256_extracti128_si256` reads the halves back (Intel's definitions - the one
+    modelling assumption).  Both halves of both masks are the masks of the SSE4.1 kernel (below, re-extracted on every
+    run), the coefficient steps are the same 4 / 2 / 1, so every row of the AVX2 kernel is `Fir.SimdU8x4.pixelR` and
+    `u8x4_sse4_four_rows_eq_portable` is its theorem too. -/
+
+theorem u8x4_avx2_four_rows_masks :
+    Fir.Gen.u8x4_avx2_four_sh1_lo = Fir.Gen.u8x4_sse4_four_mask_lo ∧ Fir.Gen.u8x4_avx2_four_sh1_hi = Fir.Gen.u8x4_sse4_four_mask_lo ∧
+    Fir.Gen.u8x4_avx2_four_sh2_lo = Fir.Gen.u8x4_sse4_four_mask_hi ∧ Fir.Gen.u8x4_avx2_four_sh2_hi = Fir.Gen.u8x4_sse4_four_mask_hi ∧
+    Fir.Gen.u8x4_sse4_four_mask = Fir.Gen.u8x4_sse4_four_mask_lo := by decide
+
+theorem u8x4_avx2_four_rows_source_as_modelled : Fir.Gen.u8x4_avx2_four_rows_skeleton =
+    "_mm256_setzero_si256 _mm256_set1_epi32 chunks_exact remainder simd_utils::mm256_load_and_clone_i16x2 simd_utils::mm256_load_and_clone_i16x2 _mm256_inserti128_si256::<1> _mm256_castsi128_si256 simd_utils::loadu_si128 simd_utils::loadu_si128 _mm256_shuffle_epi8 _mm256_add_epi32 _mm256_madd_epi16 _mm256_shuffle_epi8 _mm256_add_epi32 _mm256_madd_epi16 _mm256_inserti128_si256::<1> _mm256_castsi128_si256 simd_utils::loadu_si128 simd_utils::loadu_si128 _mm256_shuffle_epi8 _mm256_add_epi32 _mm256_madd_epi16 _mm256_shuffle_epi8 _mm256_add_epi32 _mm256_madd_epi16 chunks_exact remainder simd_utils::mm256_load_and_clone_i16x2 _mm256_inserti128_si256::<1> _mm256_castsi128_si256 simd_utils::loadl_epi64 simd_utils::loadl_epi64 _mm256_shuffle_epi8 _mm256_add_epi32 _mm256_madd_epi16 _mm256_inserti128_si256::<1> _mm256_castsi128_si256 simd_utils::loadl_epi64 simd_utils::loadl_epi64 _mm256_shuffle_epi8 _mm256_add_epi32 _mm256_madd_epi16 first _mm256_set1_epi32 _mm256_inserti128_si256::<1> _mm256_castsi128_si256 simd_utils::mm_cvtepu8_epi32 simd_utils::mm_cvtepu8_epi32 _mm256_add_epi32 _mm256_madd_epi16 _mm256_inserti128_si256::<1> _mm256_castsi128_si256 simd_utils::mm_cvtepu8_epi32 simd_utils::mm_cvtepu8_epi32 _mm256_add_epi32 _mm256_madd_epi16 _mm256_srai_epi32::<PRECISION> _mm256_srai_epi32::<PRECISION> _mm256_packs_epi32 _mm256_packs_epi32 _mm256_packus_epi16 _mm256_packus_epi16 _mm_cvtsi128_si32 _mm256_extracti128_si256::<0> _mm_cvtsi128_si32 _mm256_extracti128_si256::<1> _mm_cvtsi128_si32 _mm256_extracti128_si256::<0> _mm_cvtsi128_si32 _mm256_extracti128_si256::<1>" := by rfl
+
 end Fir.C02
